@@ -59,6 +59,8 @@ class C14:
                 made += k
             elif r < 0.68:
                 ops.append(['clear'])
+            elif r < 0.8:
+                ops.append(['qtake', c, rng.randint(0, 2), rng.choice(['an', 'an', 'the'])])
             else:
                 ops.append(['query', c])
         # every history ends by querying every root class
@@ -73,7 +75,8 @@ class C14:
         for op in case['ops']:
             k = op[0]
             o.append({'concrete': lambda: f"OConcrete {op[1]}", 'symbolic': lambda: f"OSymbolic {op[1]}",
-                      'infer': lambda: f"OInfer {op[1]} {op[2]}", 'clear': lambda: "OClear", 'query': lambda: f"OQuery {op[1]}"}[k]())
+                      'infer': lambda: f"OInfer {op[1]} {op[2]}", 'clear': lambda: "OClear", 'query': lambda: f"OQuery {op[1]}",
+                      'qtake': lambda: f"OQueryTake {op[1]} {2 if op[3] == 'the' else op[2]}"}[k]())
         return f"Eval vm_compute in (run_rcase {n} {ct} [{'; '.join(o)}])."
 
     def split(self, s):
@@ -93,13 +96,49 @@ class C14:
 
     def canon(self, case, io):
         obs = io.split() if isinstance(io, str) and not io.startswith('X') else [io]
-        return obs, self.unordered(obs)
+        return obs, obs
+
+    def norm_the(self, case, obs, full):
+        """`the` over the registry: one instance -> that instance, none -> nothing, several -> 'many' (what was delivered before the
+        abort is not observable); rewrite the model's / reference's k = 2 observation accordingly"""
+        out = []
+        for op, o in zip(case['ops'], obs):
+            if op[0] == 'qtake' and op[3] == 'the':
+                m = re.match(r'\[(.*)\]n(\d+)$', o)
+                items = [x for x in m.group(1).split(',') if x] if m else None
+                if items is not None and len(items) >= 2:
+                    o = '[many]n' + m.group(2)
+            out.append(o)
+        return out
 
     def tie_view(self, case, mo):
-        return mo
+        from p_history import Expect
+        exp = self.norm_the(case, mo, False)
+        return Expect(lambda io: len(io) == len(exp) and all(a == b for a, b in zip(io, exp)), exp)
 
     def prop_view(self, case, so):
-        return self.unordered(so)
+        from p_history import Expect
+        ops = case['ops']
+
+        def ok(io):
+            if len(io) != len(so):
+                return False
+            for op, o, s_ in zip(ops, io, so):
+                mo, ms = re.match(r'\[(.*)\]n(\d+)$', o), re.match(r'\[(.*)\]n(\d+)$', s_)
+                if not mo or not ms or mo.group(2) != ms.group(2):
+                    return False
+                a = [x for x in mo.group(1).split(',') if x]
+                b = [x for x in ms.group(1).split(',') if x]
+                if op[0] == 'qtake':
+                    if op[3] == 'the':
+                        if (a == ['many']) != (len(b) >= 2) or (a != ['many'] and sorted(a) != sorted(b)):
+                            return False
+                    elif not (set(a) <= set(b) and len(set(a)) == len(a) == min(op[2], len(b))):
+                        return False
+                elif sorted(a) != sorted(b):
+                    return False
+            return True
+        return Expect(ok, so)
 
     def known(self, case, io, mo, so):
         return None
@@ -113,7 +152,7 @@ class C14:
                 made += 1
             elif op[0] == 'infer':
                 made += op[2]
-            elif op[0] == 'query':
+            elif op[0] in ('query',):
                 k = len([x for x in o[1:o.index(']')].split(',') if x])
                 if 0 < k < made:
                     return True
